@@ -18,6 +18,37 @@ def Ob.connects : Ob → Bool
 theorem getBrokerClient_closing {st : St} (h : st.closing = true) (n : Int) :
     getBrokerClient st n = .error .clientClosed := by simp [getBrokerClient, h]
 
+theorem issueTo_closing {st : St} (h : st.closing = true) (cfg : Cfg) (n : Int) (o : ReqOwner) (e : Bool) (w : ReqWhat)
+    (m : Option Rat) (rj : Bool) :
+    issueTo cfg st n o e w m rj = .error { st := st, obs := [], kind := .clientClosed } := by
+  simp [issueTo, getBrokerClient_closing h]
+
+theorem issueTo_ok {cfg : Cfg} {st : St} {n : Int} {o : ReqOwner} {e : Bool} {w : ReqWhat} {m : Option Rat} {rj : Bool} {i : IssueOk}
+    (h : issueTo cfg st n o e w m rj = .ok i) :
+    ∃ st1 b obs1, getBrokerClient st n = .ok (st1, b, obs1) ∧ i.st = (makeRequest cfg st1 b o e w m).1 ∧
+      i.k = (makeRequest cfg st1 b o e w m).2.1 ∧ i.obs = obs1 ++ (makeRequest cfg st1 b o e w m).2.2.1 ∧
+      i.acts = (makeRequest cfg st1 b o e w m).2.2.2 := by
+  unfold issueTo at h
+  split at h
+  · cases h
+  · rename_i st1 b obs1 hg
+    split at h
+    · cases h
+    · simp only [Except.ok.injEq] at h
+      subst h
+      exact ⟨st1, b, obs1, hg, rfl, rfl, rfl, rfl⟩
+
+theorem issueTo_err {cfg : Cfg} {st : St} {n : Int} {o : ReqOwner} {e : Bool} {w : ReqWhat} {m : Option Rat} {rj : Bool} {er : IssueErr}
+    (h : issueTo cfg st n o e w m rj = .error er) :
+    (er.st = st ∧ er.obs = []) ∨ (∃ b, getBrokerClient st n = .ok (er.st, b, er.obs)) := by
+  unfold issueTo at h
+  split at h
+  · simp only [Except.error.injEq] at h; subst h; exact Or.inl ⟨rfl, rfl⟩
+  · rename_i st1 b obs1 hg
+    split at h
+    · simp only [Except.error.injEq] at h; subst h; exact Or.inr ⟨b, hg⟩
+    · cases h
+
 theorem shuffle_closing {α} {st st' : St} {xs ys : List α} (h : shuffle st xs = some (st', ys)) :
     st'.closing = st.closing := by
   unfold shuffle at h
@@ -79,17 +110,11 @@ theorem exec_closing (cfg : Cfg) (st : St) (a : Act) (h : st.closing = true) :
     split <;> try dsimp only
     · exact ⟨h, by simp [Ob.connects]⟩
     · split
-      · split <;> try dsimp only
-        · refine ⟨?_, fun o ho => applyUpdate_obs _ _ _ _ o ho⟩
-          simp [applyUpdate_closing, h]
-        · exact ⟨h, by simp [Ob.connects]⟩
-        · exact ⟨h, by simp [Ob.connects]⟩
-        · exact ⟨h, by simp [Ob.connects]⟩
-      · split <;> try dsimp only
-        · refine ⟨?_, fun o ho => applyUpdate_obs _ _ _ _ o ho⟩
-          simp [applyUpdate_closing, h]
-        · exact ⟨h, by simp [Ob.connects]⟩
-  all_goals simp only [exec, hg, h]
+      all_goals (split <;> try dsimp only)
+      all_goals (first
+        | (refine ⟨?_, fun o ho => applyUpdate_obs _ _ _ _ o ho⟩; simp [applyUpdate_closing, h]; done)
+        | exact ⟨h, by simp [Ob.connects]⟩)
+  all_goals simp only [exec, hg, h, issueTo_closing h]
   all_goals (repeat' split)
   all_goals (try dsimp only)
   all_goals (first
@@ -134,7 +159,7 @@ theorem fireDue_closing (cfg : Cfg) : ∀ (n : Nat) (st : St) (obs : List Ob),
       · exact ⟨h, ho⟩
       · rename_i t rest _ _
         have hr := runActs_closing cfg fuel { st with timers := rest }
-          [match t.what with | .mrtb k => Act.timeoutFired k | .boot j => Act.bootTimeout j] obs h ho
+          [timerAct t.what] obs h ho
         exact fireDue_closing cfg n _ _ hr.1 hr.2
 
 /-- no broker-unaware request is waiting for a bootstrap connection to be established -/
@@ -178,7 +203,11 @@ theorem step_closing (cfg : Cfg) (st : St) (env : Env) (e : Ev) (h : st.closing 
     split
     · exact ⟨h, by simp [Ob.connects]⟩
     · exact fireDue_closing cfg _ _ _ h nil
-  case close o => simp [step, h, Ob.connects]
+  case close o =>
+    simp only [step, h, if_true]
+    split
+    · exact runActs_closing cfg fuel _ _ _ rfl nil
+    · exact ⟨rfl, by simp [Ob.connects]⟩
   case conn b v => simp only [step]; exact ⟨h, nil⟩
   case resetTopics ts => simp only [step]; exact ⟨h, nil⟩
   case cload o g =>
@@ -196,7 +225,9 @@ theorem step_closing (cfg : Cfg) (st : St) (env : Env) (e : Ev) (h : st.closing 
     · exact runActs_closing cfg fuel _ _ _ h nil
   case send o keys group foe expect =>
     simp only [step]
-    split <;> exact runActs_closing cfg fuel _ _ _ h nil
+    split
+    · exact runActs_closing cfg fuel _ _ _ h nil
+    · split <;> exact runActs_closing cfg fuel _ _ _ h nil
   all_goals (simp only [step]; exact runActs_closing cfg fuel _ _ _ h nil)
 
 /-! ### C11: the timeout wrapper -/
@@ -221,8 +252,10 @@ def boundOf (cfg : Cfg) (m : Option Rat) : Rat :=
 theorem makeRequest_spec (cfg : Cfg) (st : St) (b : Nat) (owner : ReqOwner) (expect : Bool) (what : ReqWhat) (m : Option Rat) :
     let r := makeRequest cfg st b owner expect what m
     r.2.1 = st.reqs.length ∧
-    r.1.reqs = st.reqs ++ [{ k := st.reqs.length, b := b, issued := st.now, due := st.now + boundOf cfg m, owner := owner }] ∧
-    r.1.timers = insertTimer { what := .mrtb st.reqs.length, due := st.now + boundOf cfg m } st.timers ∧
+    r.1.reqs = st.reqs ++ [{ k := st.reqs.length, b := b, issued := st.now, due := st.now + boundOf cfg m,
+                             pending := !syncFire st b expect, grp := grpOf what, owner := owner }] ∧
+    r.1.timers = (if syncFire st b expect then st.timers
+                  else insertTimer { what := .mrtb st.reqs.length, due := st.now + boundOf cfg m } st.timers) ∧
     Ob.setTimer (.mrtb st.reqs.length) (st.now + boundOf cfg m) ∈ r.2.2.1 ∧ r.1.now = st.now := by
   intro r
   refine ⟨rfl, ?_, ?_, ?_, rfl⟩
@@ -285,7 +318,7 @@ theorem exec_closing_nbc (cfg : Cfg) (st : St) (a : Act) (h : st.closing = true)
     NoBootConn (exec cfg st a).1 := by
   have hg := fun n => getBrokerClient_closing h n
   cases a
-  all_goals simp only [exec, hg, h]
+  all_goals simp only [exec, hg, h, issueTo_closing h]
   all_goals (repeat' split)
   all_goals (try dsimp only)
   all_goals (first
@@ -357,7 +390,11 @@ theorem step_closing_nbc (cfg : Cfg) (st : St) (env : Env) (e : Ev) (h : st.clos
     split
     · exact hb
     · exact fireDue_closing_nbc cfg _ _ _ h hb
-  case close o => simp only [step, h, if_true]; exact hb
+  case close o =>
+    simp only [step, h, if_true]
+    split
+    · exact runActs_closing_nbc cfg fuel _ _ _ rfl hb'
+    · exact hb
   case conn b v => simp only [step]; exact hb
   case resetTopics ts => simp only [step]; exact hb
   case load o topics =>
@@ -380,7 +417,12 @@ theorem step_closing_nbc (cfg : Cfg) (st : St) (env : Env) (e : Ev) (h : st.clos
     · exact runActs_closing_nbc cfg fuel _ _ _ h hb'
   case send o keys group foe expect =>
     simp only [step]
-    split <;> exact runActs_closing_nbc cfg fuel _ _ _ h (NoBootConn_of_unawares hb' rfl)
+    split
+    · exact runActs_closing_nbc cfg fuel _ _ _ h (NoBootConn_of_unawares hb' rfl)
+    · split <;> exact runActs_closing_nbc cfg fuel _ _ _ h (NoBootConn_of_unawares hb' rfl)
+  case ltp o topics =>
+    simp only [step]
+    exact runActs_closing_nbc cfg fuel _ _ _ h (NoBootConn_of_unawares hb' rfl)
   all_goals (simp only [step]; exact runActs_closing_nbc cfg fuel _ _ _ h hb')
 
 /-- C20, trace level: after a closed state without awaited bootstrap connections, no event sequence
@@ -398,5 +440,124 @@ theorem closed_forever (cfg : Cfg) : ∀ (evs : List (Env × Ev)) (st : St), st.
     intro e post _ o ho
     simp only [List.foldl_cons] at ho
     exact ih (pre ++ e :: post) _ (step_closing cfg st x.1 x.2 h hb).1 (step_closing_nbc cfg st x.1 x.2 h hb) e post rfl o ho
+
+/-! ### bootstrap connections at close (the known finding about the close Deferred) -/
+
+/-- no broker-unaware request has a bootstrap connection open (request in flight on it) -/
+def NoBootReq (st : St) : Prop := ∀ x ∈ st.unawares, ∀ j rest, x.st ≠ .bootReq j rest
+
+def Ob.isBootLose : Ob → Bool
+  | .bootLose _ => true
+  | _ => false
+
+theorem NoBootReq_setUnaware {st : St} (h : NoBootReq st) (u : Nat) (f : Unaware → Unaware)
+    (hf : ∀ y j rest, (f y).st ≠ .bootReq j rest) : NoBootReq (setUnaware st u f) := by
+  intro x hx j rest
+  simp only [setUnaware, List.mem_map] at hx
+  obtain ⟨y, hy, rfl⟩ := hx
+  split
+  · exact hf y j rest
+  · exact h y hy j rest
+
+theorem NoBootReq_of_unawares {st st' : St} (h : NoBootReq st) (he : st'.unawares = st.unawares) : NoBootReq st' := by
+  intro x hx; rw [he] at hx; exact h x hx
+
+theorem NoBootReq_append {st st' : St} (h : NoBootReq st) (x : Unaware) (hx : x.st = .done)
+    (he : st'.unawares = st.unawares ++ [x]) : NoBootReq st' := by
+  intro y hy j rest
+  rw [he] at hy
+  rcases List.mem_append.mp hy with hy | hy
+  · exact h y hy j rest
+  · simp only [List.mem_singleton] at hy; subst hy; rw [hx]; exact fun hh => by cases hh
+
+theorem cloadJoin_nbr {st : St} (h : NoBootReq st) (w : Waiter) (g : String) : NoBootReq (cloadJoin st w g).1 := by
+  unfold cloadJoin
+  split
+  · exact NoBootReq_of_unawares h rfl
+  · exact NoBootReq_append h _ rfl rfl
+
+theorem applyUpdate_noLose (st : St) (c' : Cache) (cn : List Int) (bs : List Broker) :
+    ∀ o ∈ (applyUpdate st c' cn bs).2.1, o.isBootLose = false := by
+  intro o ho
+  simp only [applyUpdate, List.mem_flatMap] at ho
+  obtain ⟨e, _, he⟩ := ho
+  split at he
+  · simp only [List.mem_singleton] at he; subst he; rfl
+  · cases he
+
+theorem cancelUnaware_noLose (x : Unaware) : ∀ o ∈ (cancelUnaware x).1, o.isBootLose = false := by
+  intro o ho
+  unfold cancelUnaware at ho
+  split at ho <;> simp at ho
+  subst ho; rfl
+
+/-- while closing, with no bootstrap connection open, no action opens one or tells one to close -/
+theorem exec_closing_nbr (cfg : Cfg) (st : St) (a : Act) (h : st.closing = true) (hb : NoBootReq st) :
+    NoBootReq (exec cfg st a).1 ∧ ∀ o ∈ (exec cfg st a).2.1, o.isBootLose = false := by
+  have hg := fun n => getBrokerClient_closing h n
+  cases a
+  case bootResult j r =>
+    simp only [exec]
+    split
+    · exact ⟨hb, by simp [Ob.isBootLose]⟩
+    · rename_i x hx
+      exfalso
+      have hm := List.mem_of_mem_head? hx
+      obtain ⟨hxu, hp⟩ := List.mem_filter.mp hm
+      split at hp
+      · rename_i j' rest hst; exact hb x hxu j' rest hst
+      · cases hp
+  case cancelU u =>
+    simp only [exec]
+    split
+    · exact ⟨hb, by simp [Ob.isBootLose]⟩
+    · exact ⟨hb, cancelUnaware_noLose _⟩
+  case unawareDone u r =>
+    have hset : NoBootReq (setUnaware st u fun y => { y with st := .done }) :=
+      NoBootReq_setUnaware hb _ _ (fun y j rest hh => by cases hh)
+    simp only [exec]
+    split <;> try dsimp only
+    · exact ⟨hb, by simp [Ob.isBootLose]⟩
+    · split
+      all_goals (split <;> try dsimp only)
+      all_goals (first
+        | exact ⟨NoBootReq_of_unawares hset rfl, fun o ho => applyUpdate_noLose _ _ _ _ o ho⟩
+        | exact ⟨NoBootReq_of_unawares hset rfl, by simp [Ob.isBootLose]⟩
+        | exact ⟨hset, by simp [Ob.isBootLose]⟩)
+  all_goals simp only [exec, hg, h, issueTo_closing h]
+  all_goals (repeat' split)
+  all_goals (try dsimp only)
+  all_goals (refine ⟨?_, ?_⟩)
+  all_goals (first
+    | exact hb
+    | exact NoBootReq_of_unawares hb rfl
+    | (rename_i hs; exact NoBootReq_of_unawares hb (shuffle_unawares hs))
+    | exact NoBootReq_of_unawares hb (reqDone_unawares _ _ _ _)
+    | exact cloadJoin_nbr hb _ _
+    | (exact absurd trivial (by assumption))
+    | (apply NoBootReq_setUnaware hb; intro y j rest hh; cases hh; done)
+    | exact NoBootReq_append hb _ rfl rfl
+    | (exact NoBootReq_of_unawares (NoBootReq_setUnaware hb _ _ (fun y j rest hh => by cases hh)) rfl)
+    | (simp [Ob.isBootLose]; done)
+    | (simp_all [Ob.isBootLose]; done))
+
+theorem runActs_closing_nbr (cfg : Cfg) : ∀ (fuel : Nat) (st : St) (acts : List Act) (obs : List Ob),
+    st.closing = true → NoBootReq st → (∀ o ∈ obs, o.isBootLose = false) →
+    ∀ o ∈ (runActs cfg fuel st acts obs).2, o.isBootLose = false
+  | 0, st, acts, obs, _, _, ho => by
+    simp only [runActs]
+    intro o hm
+    rcases List.mem_append.mp hm with hm | hm
+    · exact ho o hm
+    · simp only [List.mem_singleton] at hm; subst hm; rfl
+  | fuel+1, st, [], obs, _, _, ho => by simp only [runActs]; exact ho
+  | fuel+1, st, a :: rest, obs, h, hb, ho => by
+    simp only [runActs]
+    obtain ⟨h1, h2⟩ := exec_closing_nbr cfg st a h hb
+    apply runActs_closing_nbr cfg fuel _ _ _ (exec_closing cfg st a h).1 h1
+    intro o hm
+    rcases List.mem_append.mp hm with hm | hm
+    · exact ho o hm
+    · exact h2 o hm
 
 end Afkak.ClientNet
